@@ -57,6 +57,8 @@ LISTENER_TYPES = [
     {"type": "anomaly", "value": 1.0, "anomaly": "aol"},
     {"type": "light", "ltype": "umbra"},
     {"type": "light", "ltype": "penumbra"},
+    {"type": "light", "ltype": "umbra", "frame": "EME2000"},
+    {"type": "light", "ltype": "penumbra", "frame": "TOD"},
     {"type": "terminator"},
     {"type": "signal", "station": 0, "elev": 0.0},
     {"type": "signal", "station": 0, "elev": 0.17},
